@@ -3,6 +3,8 @@
 //!   kind 0 Cal / 3 CalType::Cal      : <cal>
 //!   kind 1 UnionCal / 2 CalType::UnionCal : ncals <cal>* has_settle [nsettle <cal>*]
 //!   kind 4 NamedCal / 5 CalType::NamedCal : len <char codes>
+//!   kind 10 / 11 / 12 / 13 : as 0 / 1 / 2 / 3 with every member calendar restored from a saved document that lists the
+//!                            holidays in supply order (the Deserialize path instead of the constructor)
 //!   <cal> = nmask mask* nhols hols*
 use crate::dates::{from_n, rollday, to_n};
 use crate::{guard, hash, Ints};
@@ -40,20 +42,42 @@ pub enum AnyCal {
     T(CalType),
 }
 
-fn read_cal(r: &mut Rd) -> Cal {
+/// The calendar RESTORED FROM A SAVED DOCUMENT that lists the holidays in the order they were supplied (no duplicates):
+/// the serde form of `Cal::new(hols, mask)` with its holiday array rewritten, read back through `Deserialize`.
+/// Falls back to the constructed calendar when the saved form has no `holidays` array (a different document layout).
+fn cal_from_doc(hols: &[chrono::NaiveDateTime], c: Cal) -> Cal {
+    let mut v = match serde_json::to_value(&c) {
+        Ok(v) => v,
+        Err(_) => return c,
+    };
+    let mut seen = std::collections::HashSet::new();
+    let arr: Vec<serde_json::Value> =
+        hols.iter().filter(|h| seen.insert(**h)).map(|h| serde_json::to_value(h).expect("date json")).collect();
+    match v.get_mut("holidays") {
+        Some(h) if h.is_array() && h.as_array().map(|a| a.len()) == Some(arr.len()) => *h = serde_json::Value::Array(arr),
+        _ => return c,
+    }
+    serde_json::from_value(v).expect("calendar document")
+}
+fn read_cal(r: &mut Rd, doc: bool) -> Cal {
     let nm = r.next() as usize;
     let mask: Vec<u8> = r.take(nm).iter().map(|x| *x as u8).collect();
     let nh = r.next() as usize;
-    let hols = r.take(nh).iter().map(|x| from_n(*x)).collect();
-    Cal::new(hols, mask)
+    let hols: Vec<chrono::NaiveDateTime> = r.take(nh).iter().map(|x| from_n(*x)).collect();
+    let c = Cal::new(hols.clone(), mask);
+    if doc {
+        cal_from_doc(&hols, c)
+    } else {
+        c
+    }
 }
-fn read_union(r: &mut Rd) -> UnionCal {
+fn read_union(r: &mut Rd, doc: bool) -> UnionCal {
     let nc = r.next() as usize;
-    let cals: Vec<Cal> = (0..nc).map(|_| read_cal(r)).collect();
+    let cals: Vec<Cal> = (0..nc).map(|_| read_cal(r, doc)).collect();
     let hs = r.next();
     let settle = if hs == 1 {
         let ns = r.next() as usize;
-        Some((0..ns).map(|_| read_cal(r)).collect())
+        Some((0..ns).map(|_| read_cal(r, doc)).collect())
     } else {
         None
     };
@@ -67,10 +91,10 @@ fn read_name(r: &mut Rd) -> String {
 pub fn read_anycal(r: &mut Rd) -> Result<AnyCal, ()> {
     let kind = r.next();
     Ok(match kind {
-        0 => AnyCal::C(read_cal(r)),
-        3 => AnyCal::T(CalType::Cal(read_cal(r))),
-        1 => AnyCal::U(read_union(r)),
-        2 => AnyCal::T(CalType::UnionCal(read_union(r))),
+        0 | 10 => AnyCal::C(read_cal(r, kind == 10)),
+        3 | 13 => AnyCal::T(CalType::Cal(read_cal(r, kind == 13))),
+        1 | 11 => AnyCal::U(read_union(r, kind == 11)),
+        2 | 12 => AnyCal::T(CalType::UnionCal(read_union(r, kind == 12))),
         4 => AnyCal::N(NamedCal::try_new(&read_name(r)).map_err(|_| ())?),
         5 => AnyCal::T(CalType::NamedCal(NamedCal::try_new(&read_name(r)).map_err(|_| ())?)),
         _ => panic!("bad calendar kind"),
